@@ -63,3 +63,20 @@ Theorem C08_expectation_tree : forall (S : SR) (G : grammar S) (t : tree S) (X :
   tweight (tlift S t) = (tweight t, smul (tweight t) (nat_s (length (tyield t)))).
 Proof. intros S G t X H. exact (expectation_tree_weight S G t X H). Qed.
 Print Assumptions C08_expectation_tree.
+
+(* The start symbol's value is the sum of the string weights over the whole language, at every height: the h-th
+   Kleene iterate of X equals the sum, over ALL strings (a grammar with bodies of at most K symbols yields strings of
+   length at most K^h at height h), of the height-h derivation sum of the string -- every derivation tree is counted
+   under exactly one string (any commutative semiring; proofs/TotalStringsProofs.v). *)
+From GV.proofs Require ProductProofs TotalStringsProofs.
+Theorem C08_total_is_sum_of_strings : forall (S : SR) (G : grammar S) (V : list nat) (K : nat), NoDup V ->
+  (forall r a, In r G -> In (T a) (rbody r) -> In a V) ->
+  (forall r, In r G -> length (rbody r) <= K) ->
+  forall h X, bu_iter G h X = bsum (ProductProofs.words_le V (Nat.pow K h)) (fun xs => W G h X xs).
+Proof. intros S G V K HV Ht Hk h X. exact (TotalStringsProofs.total_is_sum_of_all_strings S G V K HV Ht Hk h X). Qed.
+Print Assumptions C08_total_is_sum_of_strings.
+
+Example C08_total_is_sum_of_strings_nonvacuous :
+  bu_iter TotalStringsProofs.ex_G 3 0 = bsum (ProductProofs.words_le [0; 1] (Nat.pow 2 3)) (fun xs => W TotalStringsProofs.ex_G 3 0 xs).
+Proof. exact TotalStringsProofs.total_strings_instance_thm. Qed.
+Print Assumptions C08_total_is_sum_of_strings_nonvacuous.
